@@ -1,0 +1,15 @@
+//go:build !verif
+
+// Package verifhook provides observation points for the external
+// verification harness. With the verif build tag on, At calls the
+// installed handler (if any); with the tag off it is an empty function.
+package verifhook
+
+// Enabled reports whether hooks are compiled in.
+const Enabled = false
+
+// Set is a no-op without the verif build tag.
+func Set(f func(point string, args ...any)) {}
+
+// At is a no-op without the verif build tag.
+func At(point string, args ...any) {}
